@@ -111,9 +111,14 @@ class SetupFailed(Exception):
 class Session:
     """One connection (secure: an IpPairing with pair-verify done; insecure: a bare HomeKitConnection)."""
 
-    def __init__(self, host: str, secure: bool):
+    def __init__(self, host: str, secure: bool, hosts=None):
+        """host: the address the (first) connection lands on; hosts: every advertised address
+        (default: just `host`).  `self.pick` steers which advertised address the next TCP connection
+        reaches (SimNet tcp_script)."""
         from aiohomekit.controller.ip.connection import HomeKitConnection
         self.host, self.secure = host, secure
+        self.hosts = list(hosts) if hosts else [host]
+        self.pick = host
         self.seen: list = []
         self.tap = Tap()
         self.loop = vloop.new_loop()
@@ -121,17 +126,23 @@ class Session:
         ident = A.Identity()
         self.beh = Beh(ident, self)
         self.pairing = None
+
+        def tcp_script(offered):
+            return ("ok", self.pick if self.pick in offered else offered[0])
         try:
             if secure:
-                self.net, self.pairing = simnet.make_pairing(self.loop, hosts=(host,), behaviour=self.beh, ident=ident)
+                self.net, self.pairing = simnet.make_pairing(self.loop, hosts=tuple(self.hosts), behaviour=self.beh,
+                                                             ident=ident)
+                self.net.tcp_script = tcp_script
                 self.conn = self.pairing.connection
                 self.run(self.pairing._ensure_connected())
             else:
                 self.net = simnet.SimNet(self.loop, self.beh)
+                self.net.tcp_script = tcp_script
                 self.net.install()
 
                 async def mk():
-                    c = HomeKitConnection(None, [host], 51826)
+                    c = HomeKitConnection(None, list(self.hosts), 51826)
                     await c.ensure_connection()
                     return c
                 self.conn = self.run(mk())
@@ -144,6 +155,35 @@ class Session:
             raise
         self.cursor = 0            # index into self.seen of the first request not yet attributed
         self.tap_cursor = 0
+
+    def current_acc(self):
+        """The accessory end of the connection that is open now (None if none)."""
+        live = [c for c in self.net.conns if c.open]
+        return live[-1] if live else None
+
+    def lose_and_reconnect(self, host: str, reset: bool = False):
+        """The accessory drops the open connection; the library reconnects by itself and the TCP
+        connection lands on `host` (one of the advertised addresses). Returns the new accessory end."""
+        import asyncio
+        old = self.current_acc()
+        self.pick = host
+        nconn = len(self.net.conns)
+
+        async def go():
+            if old is not None:
+                old.close(reset=reset)
+            for _ in range(400):                       # virtual time; the first retry is immediate
+                await asyncio.sleep(0.05)
+                if len(self.net.conns) > nconn and self.conn.is_connected:
+                    return True
+            return False
+        ok = self.run(go())
+        acc = self.current_acc()
+        if not ok or acc is None or acc.host != host:
+            raise SetupFailed(f"automatic reconnect to {host} did not happen "
+                              f"(connected={bool(self.conn.is_connected)}, accessory end={acc.host if acc else None})",
+                              self.stray())
+        return acc
 
     def run(self, coro):
         return self.loop.run_until_complete(coro)
@@ -214,17 +254,24 @@ _WS = " \t\r\n"
 _DELIM = ",]}" + _WS
 
 
-def tokenize_tree(s: str):
+def tokenize_tree(s: str, with_tokens: bool = False):
     """Independent JSON reader: returns the tagged tree with every scalar (and object key) as the
-    literal text found in `s`. White space between tokens is skipped (and therefore missing from
-    the tree: Compact(tree) differs from `s` exactly when `s` has insignificant white space)."""
+    literal text found in `s` (and, on request, the flat sequence of tokens in scan order). White
+    space between tokens is skipped (and therefore missing from the tree / token list:
+    Compact(tree) differs from `s` exactly when `s` has insignificant white space)."""
     pos = 0
     n = len(s)
+    toks: list = []
 
     def ws():
         nonlocal pos
         while pos < n and s[pos] in _WS:
             pos += 1
+
+    def punct(c):
+        nonlocal pos
+        toks.append(c)
+        pos += 1
 
     def string():
         nonlocal pos
@@ -237,6 +284,7 @@ def tokenize_tree(s: str):
         if pos >= n:
             raise NotJson("unterminated string")
         pos += 1
+        toks.append(s[st:pos])
         return s[st:pos]
 
     def value():
@@ -248,28 +296,28 @@ def tokenize_tree(s: str):
         if c == '"':
             return {"t": "lit", "s": string()}
         if c == "[":
-            pos += 1
+            punct("[")
             items = []
             ws()
             if pos < n and s[pos] == "]":
-                pos += 1
+                punct("]")
                 return {"t": "arr", "v": items}
             while True:
                 items.append(value())
                 ws()
                 if pos < n and s[pos] == ",":
-                    pos += 1
+                    punct(",")
                     continue
                 if pos < n and s[pos] == "]":
-                    pos += 1
+                    punct("]")
                     return {"t": "arr", "v": items}
                 raise NotJson(f"',' or ']' expected at {pos}")
         if c == "{":
-            pos += 1
+            punct("{")
             items = []
             ws()
             if pos < n and s[pos] == "}":
-                pos += 1
+                punct("}")
                 return {"t": "obj", "v": items}
             while True:
                 ws()
@@ -277,14 +325,14 @@ def tokenize_tree(s: str):
                 ws()
                 if pos >= n or s[pos] != ":":
                     raise NotJson(f"':' expected at {pos}")
-                pos += 1
+                punct(":")
                 items.append([k, value()])
                 ws()
                 if pos < n and s[pos] == ",":
-                    pos += 1
+                    punct(",")
                     continue
                 if pos < n and s[pos] == "}":
-                    pos += 1
+                    punct("}")
                     return {"t": "obj", "v": items}
                 raise NotJson(f"',' or '}}' expected at {pos}")
         st = pos
@@ -292,16 +340,29 @@ def tokenize_tree(s: str):
             pos += 1
         if st == pos:
             raise NotJson(f"unexpected character at {pos}")
+        toks.append(s[st:pos])
         return {"t": "lit", "s": s[st:pos]}
 
     tree = value()
     ws()
     if pos != n:
         raise NotJson(f"trailing data at {pos}")
-    return tree
+    return (tree, toks) if with_tokens else tree
 
 
 NULL_TREE = {"t": "lit", "s": "null"}
+
+
+def depth_of(tree) -> int:
+    d, stack = 0, [(tree, 1)]
+    while stack:
+        t, n = stack.pop()
+        d = max(d, n)
+        if t["t"] == "arr":
+            stack += [(x, n + 1) for x in t["v"]]
+        elif t["t"] == "obj":
+            stack += [(x, n + 1) for _, x in t["v"]]
+    return d
 
 
 def observe(sess: Session, want_json: bool, want_order: bool):
@@ -314,7 +375,9 @@ def observe(sess: Session, want_json: bool, want_order: bool):
         tree = NULL_TREE
         if want_json:
             try:
-                tree = tokenize_tree(text)
+                tree, toks = tokenize_tree(text, True)
+                if depth_of(tree) > 40:
+                    tree = {"t": "toks", "v": toks}       # too deep to ship as a nested record: flat token form
             except NotJson as ex:
                 problems.append(f"body of {req.method} {req.target} is not JSON ({ex}): {req.body[:80]!r}")
         order = []
@@ -326,5 +389,6 @@ def observe(sess: Session, want_json: bool, want_order: bool):
             except ValueError:
                 order = []
         reqs.append({"raw": raw, "text": text, "json": tree, "order": order, "tcalls": sizes,
-                     "_kinds": kinds, "_method": req.method, "_target": req.target})
+                     "_kinds": kinds, "_method": req.method, "_target": req.target,
+                     "_host": sess.net.conns[req.conn].host})
     return reqs, problems
